@@ -364,7 +364,7 @@ def part_units(ctx, bases, table):
                         f'preferred units is accepted', inp=inp, expected='same results as the preferred-unit input',
                         observed=r2['read_error'])
             continue
-        attr = [a for a in hiprun.IN_ATTRS if N[a] == _attr_index(name)][0]
+        attr = hiprun.IN_ATTRS[_attr_index(name)]
         if name != 'Reservoir Life Cycle':
             read_cases.append({'flat': [f, o, v], 'impl': ('V', [fx(r2['pre'][N[attr]])]),
                                'desc': {'param': name, 'unit': unit, 'written': str(v), 'text': text_of(c2)}, 'nontrivial': (name, unit)})
@@ -436,6 +436,34 @@ def part_helpers(ctx):
     flatcorr.run(ctx, 'UtilEff-vs-model', REQ, 'run_util_eff', F(1, 10 ** 12), util, **kw)
 
 
+def part_ranges(ctx):
+    """the declared [Min, Max] of the live parameters are the ranges Spec.HipRaSpec.in_range_b states the theorems for."""
+    _, params = hip_tables.hip_inputs()
+    live = dict(params)
+    attrs = hiprun.IN_ATTRS[:7] + ['rock_density', 'recoverable_fluid_factor', 'recoverable_rock_heat']
+    lo = {a: F(min(live[a].AllowableRange)) if a == 'reservoir_life_cycle' else qconv.F(live[a].Min) for a in attrs}
+    hi = {a: F(max(live[a].AllowableRange)) if a == 'reservoir_life_cycle' else qconv.F(live[a].Max) for a in attrs}
+
+    def term(v, expect):
+        order = ['reservoir_temperature', 'rejection_temperature', 'reservoir_porosity', 'reservoir_area', 'reservoir_thickness',
+                 'reservoir_life_cycle', 'rock_heat_capacity', None, None, 'rock_density', 'recoverable_fluid_factor',
+                 'recoverable_rock_heat']
+        args = ' '.join(qconv.q(v[a]) if a else '(-1#1)' for a in order)
+        t = f'in_range_b (Build_hin {args} false 0 false 0 0 0)'
+        return t if expect else f'negb ({t})'
+
+    terms, what = [term(lo, True), term(hi, True)], ['all minima', 'all maxima']
+    for a in attrs:
+        d = F(1, 1000)
+        terms += [term({**lo, a: lo[a] - d}, False), term({**hi, a: hi[a] + d}, False)]
+        what += [f'{a} just below its minimum {float(lo[a])}', f'{a} just above its maximum {float(hi[a])}']
+    bad = fw.kernel_bools(ctx, 'ranges', REQ + ['Spec.HipRaSpec'], terms)
+    ctx.count('ranges-vs-spec', evaluations=len(terms))
+    for b in bad:
+        ctx.violate('corr', f'ranges:{what[b]}', f'declared parameter range differs from Spec.HipRaSpec.in_range_b at: {what[b]}',
+                    inp={'kind': 'ranges', 'where': what[b]})
+
+
 def part_report(ctx, ok_runs, results_by_text):
     """observe_at: the SUMMARY OF RESULTS of the report states the outputs (to the printed precision)."""
     n = bad = 0
@@ -502,8 +530,7 @@ def part_client(ctx, labelled, results_by_text):
 # ------------------------------------------------------------------------------------------------
 
 def correspondence(ctx, proofs_ok=True):
-    tables = hip_tables.gen_hip_tables(ctx) if not (fw.COQ / 'Gen' / 'HipTables.v').exists() else \
-        {'units': hip_tables.unit_rows()[0]}
+    unit_table = hip_tables.unit_rows()[0]      # the rows Gen/HipTables.v was just regenerated from
     import time
     t0, marks = time.time(), []
 
@@ -519,11 +546,12 @@ def correspondence(ctx, proofs_ok=True):
     mark('model+clauses')
     part_report(ctx, ok_runs, by_text)
     part_helpers(ctx)
-    mark('report+helpers')
+    part_ranges(ctx)
+    mark('report+helpers+ranges')
     normal = [(s, c) for s, c in cfgs if s != 'edge']
     part_scaling(ctx, cfgs[:ctx.n(110, 1500)])
     mark('scaling')
-    part_units(ctx, normal[:ctx.n(6, 60)], tables['units'])
+    part_units(ctx, normal[:ctx.n(6, 60)], unit_table)
     mark('units')
     part_client(ctx, labelled, by_text)
     mark('client')
@@ -553,6 +581,10 @@ def replay(ctx, data):
     inp = data['input'] or {}
     kind = inp.get('kind') or ('model' if 'desc' in inp else None)
     text = inp.get('text') or (inp.get('desc') or {}).get('text')
+    if kind == 'ranges':
+        part_ranges(ctx)
+        print('declared ranges vs Spec.HipRaSpec.in_range_b:', [v.key for v in ctx.violations] or 'agree')
+        return 1 if ctx.violations else 0
     if text is None:
         print('replay: nothing to re-execute (', data.get('what'), ')')
         return 1
